@@ -126,6 +126,10 @@ def classify(f):
         return classify_deadlock(f)
     if kind == "panic":
         if fs == "orefafs":
+            allc = [c for t in calls for c in t]
+            if any(c["op"] == "rename" and c["res"] == "panic" for c in allc) and \
+               any(c["op"] == "mkdirall" and c["res"] == "ok" and len(c["args"][0].split("/")) >= 4 for c in allc):
+                return "C07-orefafs-rename-panics-after-inverted-mkdirall"
             for a, b in cross_pairs(calls):
                 if a["op"] == "rename" and a["res"] in ("panic", "noreturn") and b["op"] in ("removeall", "remove", "rename"):
                     return "C07-orefafs-rename-panics-when-parent-vanishes"
@@ -160,11 +164,16 @@ def classify_deadlock(f):
         return None     # a single thread blocked on its own lock: a sequential C07 defect, never a known finding here
     ops = {c["op"] for t in f["calls"] for c in t}
     if fs == "memfs":
-        # every blocked thread holds a lock, and a Rename that holds its old parent is one of them
-        if all(len(h) >= 1 for _, _, h in waits):
-            ren = [c for t in f["calls"] for c in t if c["op"] == "rename" and c["res"] == "noreturn"]
-            if ren:
-                return "C07-memfs-rename-lock-order"
+        # the cycle = the blocked threads that hold a lock (others are victims waiting behind them);
+        # a Rename that holds its old parent is one of them
+        cyc = []
+        for b in blocked:
+            t, c = b.split(":")[0], b.split(":")[1]
+            parts = dict(x.split("=", 1) for x in b.split(":")[2:])
+            if parts.get("holds"):
+                cyc.append(f["calls"][int(t[1:])][int(c[1:])]["op"])
+        if len(cyc) >= 2 and "rename" in cyc:
+            return "C07-memfs-rename-lock-order"
         return None
     # OrefaFS: lock 0 is the index lock
     idx_waiter = [w for w in waits if w[1] == "W0" or w[1] == "R0"]
